@@ -73,6 +73,7 @@ func runC16(c *Ctx) {
 	c16TablesInverse(c)
 	c16FilterAfterMap(c, "FILTER-AFTER-MAP")
 	c16BinaryBeforeBuiltin(c)
+	c16MigrateUseList(c)
 	if q := c.P.Pkg("private/bufpkg/bufconfig"); q != nil {
 		c16SectionsKept(c, q)
 	}
